@@ -95,6 +95,26 @@ Theorem C09_no_stale_persisted :
 Proof. exact reachable_keys. Qed.
 Print Assumptions C09_no_stale_persisted.
 
+(* the candidate iterator is a transcription of MatchedBlockIterator's window walk (first window from
+   offset rangeStart mod W, following windows from 0, stop when windowStart > rangeEnd or at the first
+   block beyond rangeEnd); for every W it visits exactly the blocks from..to, in order. do_query (hence
+   C09_paging_concat) scans walk_blocks. *)
+Theorem C09_iterator_walks_range :
+  forall (W : N), 0 < W -> forall from to, from <= to + 1 -> walk_blocks W from to = rangeN from to.
+Proof. exact walk_blocks_eq. Qed.
+Print Assumptions C09_iterator_walks_range.
+
+(* pre-confirmed blocks are pre-filtered by their own bloom (EventMatcher.TestBloom): a block holding a
+   matching event is never rejected - for every filter shape, empty key positions included. (Paging across
+   the canonical / pre-confirmed border is modelled in do_query_pre and checked by correspondence only.) *)
+Theorem C09_preconfirmed_no_false_negative :
+  forall (member : list bkey -> bkey -> bool),
+  (forall ks k, In k ks -> member ks k = true) ->
+  forall (n : N) (b : block) (flt : efilter),
+  filter (fev_matches flt) (flat_block n b) <> [] -> cand_test member (block_keys b) flt = true.
+Proof. intros member Hs n b flt. apply (block_candidate member Hs n b (block_keys b) flt). auto. Qed.
+Print Assumptions C09_preconfirmed_no_false_negative.
+
 (* the boolean evaluated by the harness implies the hypothesis used above *)
 Theorem C09_cache_fresh_decided : forall s, cache_fresh_b s = true -> cache_fresh s.
 Proof. exact cache_fresh_b_sound. Qed.
